@@ -212,10 +212,34 @@ func main() {
 		for _, ext := range []string{"", ".pb", ".gz", ".pb.gz.tmp", ".PB.GZ", ".update"} {
 			muts = append(muts, strings.TrimSuffix(name, ".pb.gz")+ext)
 		}
+		// structural mutations: every "__"-separated field cut to every length, lengthened, dropped or doubled
+		// (e.g. a timestamp written without its nanosecond part)
+		stem, ext := strings.TrimSuffix(name, ".pb.gz"), ".pb.gz"
+		fields := strings.Split(stem, "__")
+		join := func(fs []string) string { return strings.Join(fs, "__") + ext }
+		for fi, f := range fields {
+			for l := 0; l <= len(f); l++ {
+				fs := append([]string{}, fields...)
+				fs[fi] = f[:l]
+				muts = append(muts, join(fs))
+				fs[fi] = f[l:]
+				muts = append(muts, join(fs))
+			}
+			fs := append([]string{}, fields...)
+			fs[fi] = f + "0"
+			muts = append(muts, join(fs))
+			muts = append(muts, join(append(append([]string{}, fields[:fi]...), fields[fi+1:]...)))
+			muts = append(muts, join(append(append(append([]string{}, fields[:fi+1]...), f), fields[fi+1:]...)))
+		}
 		for _, m := range muts {
 			p2.Executions++
 			p2.Transitions++
-			got, err := snapshot.ParseName(m)
+			var got snapshot.NameInfo
+			var err error
+			panicked := !r.Guard(p2.Name, "panic-in-parsename", map[string]any{"name": m}, func() { got, err = snapshot.ParseName(m) })
+			if panicked {
+				continue
+			}
 			if err != nil {
 				outcomes["error"] = true
 				continue
@@ -236,7 +260,7 @@ func main() {
 	}
 	p2.States = int64(len(baseNames))
 	p2.Distinct = int64(len(outcomes))
-	p2.Bound = "every single-character deletion/duplication/replacement/truncation and extension change of 54 built names"
+	p2.Bound = "every single-character deletion/duplication/replacement/truncation and extension change of 54 built names; every field cut to every prefix and suffix length, lengthened, dropped and doubled; a panic is a violation"
 	p2.Samples = []any{baseNames[0], baseNames[len(baseNames)-1]}
 	r.AddPart(p2)
 
